@@ -711,3 +711,60 @@ def r10_16_double_carry_is_symmetric(ctx: Ctx) -> RuleResult:
             else:
                 rr.fail(f.qual, f"the forward arm carries {fwd} day(s), the backward arm {back}: an offset change of more than 24 hours leaves a nanosecond-of-day outside [0, one day) in one direction", ctx.loc(f, n))
     return rr
+
+
+# ------------------------------------------------------------------------------------------- R10.17 / R10.18
+
+
+@rule("C10")
+def r10_17_time_of_day_arithmetic_wraps(ctx: Ctx) -> RuleResult:
+    """A time of day has no range: adding or subtracting any amount wraps around midnight.  Duration has a range (about +/- 2**30
+    days) and its factories raise outside it, so LocalTime arithmetic that goes through a Duration (`period.to_duration()`,
+    `Duration.from_*`) turns a wrap into a ValueError for large amounts and makes `-` disagree with `+`.  No arithmetic method of
+    LocalTime may construct or obtain a Duration."""
+    rr = RuleResult("R10.17", "LocalTime arithmetic (plus / minus / operators) never goes through a Duration (whose range would turn wrapping into an error)", min_instances=8)
+    M = ctx.M
+    c = M.cls("LocalTime")
+    for f in sorted(c.all_defs, key=lambda g: g.qual):
+        if isinstance(f.node, ast.Lambda) or not (f.name in ("__add__", "__sub__", "plus", "minus", "add", "subtract") or f.name.startswith("plus_")):
+            continue
+        rr.inst()
+        bad = next((n for n in own_nodes(f.node) if isinstance(n, ast.Call) and (unparse(n.func).endswith(".to_duration") or re.match(r"Duration\.(from_|_ctor|_from)", unparse(n.func)))), None)
+        if bad is None:
+            rr.ok({"method": f.qual})
+        else:
+            rr.fail(f.qual, f"`{unparse(bad)[:70]}`: a Duration is range-limited; time-of-day arithmetic must wrap for every amount (and agree with its inverse)", ctx.loc(f, bad))
+    return rr
+
+
+@rule("C10")
+def r10_18_time_of_day_extremes(ctx: Ctx) -> RuleResult:
+    """LocalTime.midnight / noon / max_value and min_value are the reference points of carry arithmetic: max_value is ONE NANOSECOND
+    before midnight (LocalDateTime.max_iso_value is built from it).  Their constructors are evaluated by the abstract interpreter
+    and the stored nanosecond-of-day compared with 0, half a day and one day minus one nanosecond."""
+    from ..absint import Iv
+    from ..oblig import interp
+
+    rr = RuleResult("R10.18", "LocalTime.midnight / noon / max_value hold 0, half a day and one day minus one nanosecond (evaluated)", min_instances=3)
+    M = ctx.M
+    npd = M.fold_class_const("PyodaConstants", "NANOSECONDS_PER_DAY")
+    meta = M.cls("_LocalTimeMeta")
+    for name, want in (("midnight", 0), ("min_value", 0), ("noon", npd // 2), ("max_value", npd - 1)):
+        f = M.find_method(meta, name)
+        if f is None:
+            continue
+        rr.inst()
+        I = interp(ctx)
+        I.max_depth = 6
+        rets, _ = I.analyse(f, params={})
+        rr.states += 1
+        got = set()
+        for v, _x in rets:
+            fl = getattr(v, "fields", None) or {}
+            n = next((x for k, x in fl.items() if "nanoseconds" in k), None)
+            got.add(int(n.lo) if isinstance(n, Iv) and n.lo == n.hi else repr(v)[:40])
+        if got == {want}:
+            rr.ok({name: want})
+        else:
+            rr.fail(f.qual, f"LocalTime.{name} holds {sorted(got, key=str)} nanoseconds of the day, not {want}", ctx.loc(f))
+    return rr
